@@ -409,6 +409,18 @@ impl fmt::Display for Rule {
     }
 }
 
+/// checks that the public keys written in a parsed rule are usable, so that the infallible
+/// conversion below cannot fail on text that parsed
+pub(crate) fn validate_parsed_rule(r: &biscuit_parser::builder::Rule) -> Result<(), error::Token> {
+    super::scope::validate_parsed_scopes(&r.scopes)?;
+    if let Some(scope_parameters) = &r.scope_parameters {
+        for pk in scope_parameters.values().flatten() {
+            PublicKey::from_bytes(&pk.key, pk.algorithm.clone().into())?;
+        }
+    }
+    Ok(())
+}
+
 impl From<biscuit_parser::builder::Rule> for Rule {
     fn from(r: biscuit_parser::builder::Rule) -> Self {
         Rule {
@@ -442,10 +454,11 @@ impl TryFrom<&str> for Rule {
     type Error = error::Token;
 
     fn try_from(value: &str) -> Result<Self, Self::Error> {
-        Ok(biscuit_parser::parser::rule(value)
+        let (_, rule) = biscuit_parser::parser::rule(value)
             .finish()
-            .map(|(_, o)| o.into())
-            .map_err(biscuit_parser::error::LanguageError::from)?)
+            .map_err(biscuit_parser::error::LanguageError::from)?;
+        validate_parsed_rule(&rule)?;
+        Ok(rule.into())
     }
 }
 
@@ -453,9 +466,10 @@ impl FromStr for Rule {
     type Err = error::Token;
 
     fn from_str(s: &str) -> Result<Self, Self::Err> {
-        Ok(biscuit_parser::parser::rule(s)
+        let (_, rule) = biscuit_parser::parser::rule(s)
             .finish()
-            .map(|(_, o)| o.into())
-            .map_err(biscuit_parser::error::LanguageError::from)?)
+            .map_err(biscuit_parser::error::LanguageError::from)?;
+        validate_parsed_rule(&rule)?;
+        Ok(rule.into())
     }
 }
